@@ -379,7 +379,26 @@ struct HVar {
     at: Option<String>,
     input: bool,
     hierarchical: bool,
+    /// initialiser written with a literal of ANOTHER width of the same family (accepted by the
+    /// compiler and re-tagged by `coerce_value_to_type`); such a variable is never assigned
+    init_lit: Option<&'static str>,
 }
+
+/// (declared type, tag, initialiser literal of a sibling type) — every pair the compiler accepts
+/// (DATE/TOD/DT do not convert between widths: `PROGRAM init error: type mismatch`).
+const CROSS_INITS: [(&str, &str, &str); 11] = [
+    ("LTIME", "LTime", "T#5s"),
+    ("TIME", "Time", "LTIME#7s"),
+    ("TIME", "Time", "T#1s"),
+    ("LTIME", "LTime", "LTIME#2s"),
+    ("LREAL", "LReal", "REAL#1.5"),
+    ("REAL", "Real", "LREAL#1.5"),
+    ("WSTRING", "WString", "'ab'"),
+    ("STRING", "String", "'ab'"),
+    ("DWORD", "DWord", "WORD#3"),
+    ("WORD", "Word", "BYTE#3"),
+    ("LWORD", "LWord", "DWORD#3"),
+];
 
 pub struct History {
     pub source: String,
@@ -429,7 +448,22 @@ pub fn history_program(rng: &mut Rng) -> History {
             } else {
                 (rng.below(3) as u8, None, false, false)
             };
-            vars.push(HVar { prog: p, name: name.to_string(), ty, retain, at, input, hierarchical });
+            vars.push(HVar { prog: p, name: name.to_string(), ty, retain, at, input, hierarchical, init_lit: None });
+        }
+        // cross-width initialisers: re-run by every restart, kept by RETAIN through a warm one
+        let extra = rng.below(3) as usize;
+        for j in 0..extra {
+            let (tyname, tag, lit) = *rng.pick(&CROSS_INITS);
+            vars.push(HVar {
+                prog: p,
+                name: format!("xw{j}"),
+                ty: HTy { name: tyname, tag, size: '-' },
+                retain: rng.below(3) as u8,
+                at: None,
+                input: false,
+                hierarchical: false,
+                init_lit: Some(lit),
+            });
         }
     }
     let mut source = String::new();
@@ -448,7 +482,11 @@ pub fn history_program(rng: &mut Rng) -> History {
                         let _ = writeln!(source, "  {} AT {a} : {};", v.name, v.ty.name);
                     }
                     None => {
-                        let _ = writeln!(source, "  {} : {} := {};", v.name, v.ty.name, v.ty.lit(1 + rng.below(5)));
+                        let init = match v.init_lit {
+                            Some(l) => l.to_string(),
+                            None => v.ty.lit(1 + rng.below(5)),
+                        };
+                        let _ = writeln!(source, "  {} : {} := {};", v.name, v.ty.name, init);
                     }
                 }
             }
@@ -461,6 +499,8 @@ pub fn history_program(rng: &mut Rng) -> History {
                 if let Some(dst) = mine.iter().find(|d| d.ty == v.ty && d.at.is_none()) {
                     let _ = writeln!(source, "{} := {};", dst.name, v.name);
                 }
+            } else if v.init_lit.is_some() {
+                // never assigned: the tag it holds is the one the initialiser coercion gave it
             } else if rng.chance(3, 4) {
                 let _ = writeln!(source, "{}", v.ty.update(&v.name));
             }
